@@ -69,6 +69,8 @@ func init() {
 }
 
 func runC05(p *chk.Prog, r *chk.Report) {
+	// what is offered for a pool is what was attached to it (ATTACH, shared with C08)
+	c08Attach(p, r)
 	scratchRule(p, r, "speaker", "internal/bgp")
 	ka := r.Rule("KEYED-ACCUMULATOR", "B path", "in package speaker a fresh set / slice / map is stored under m[k] inside a loop only when the key is absent (comma-ok false, nil, or empty), for every map whose entries are accumulated into (notifyAdsChanged: prefix -> services, service -> peers)", 2)
 	keyedAccumulatorRule(ka, p, "speaker")
